@@ -83,7 +83,7 @@ theorem sendBy_only_lowered (s : St) (o : Op) (id : Nat) (tr tr' : Tr)
     split at h'
     · rw [hrem taken h']; exact Int.le_refl _
     · rw [h] at h'; cases h'; exact Int.le_refl _
-  | eject bytes imp order =>
+  | eject bytes imp order ages =>
     simp only [step, eject] at h'
     split at h'
     · rw [hrem order h']; exact Int.le_refl _
@@ -280,7 +280,7 @@ theorem backlog_never_grows (s : St) (hwf : AList.NoDupKeys s.buf) (D : Int) (hD
     split
     · exact backlog_removeIds_le s taken D
     · exact Nat.le_refl _
-  | eject b i o =>
+  | eject b i o a =>
     simp only [step, eject]
     split
     · exact backlog_removeIds_le s o D
@@ -314,7 +314,7 @@ theorem backlog_tick_step (s : St) (hwf : AList.NoDupKeys s.buf) (D : Int) (hD :
       exact backlog_never_grows s hwf D hD _
   | adv d => simpa [isAcceptedTick] using backlog_never_grows s hwf D hD (.adv d)
   | span id root size => simpa [isAcceptedTick] using backlog_never_grows s hwf D hD (.span id root size)
-  | eject b i o => simpa [isAcceptedTick] using backlog_never_grows s hwf D hD (.eject b i o)
+  | eject b i o a => simpa [isAcceptedTick] using backlog_never_grows s hwf D hD (.eject b i o a)
 
 /-- **no_starvation (bound)** — once the clock has passed `D`, along ANY continuation (arrivals,
 clock advances, ejections, ticks with any admissible tie-break) the number of still-buffered traces
